@@ -18,6 +18,7 @@
 #include "varint.h"
 #include "varintAdaptive.h"
 #include "varintBP128.h"
+#include "varintBitmap.h"
 #include "varintChained.h"
 #include "varintChainedSimple.h"
 #include "varintDelta.h"
@@ -127,6 +128,61 @@ static size_t c_adaptive(int in, uint8_t *o, size_t cap) {
     memcpy(o + w + 8, back, 64);
     return w + 72;
 }
+/* Large inputs: every leaf of the adaptive selection with arrays long enough
+ * for the dense bitmap container (> 4096 members), the sampled uniqueness
+ * estimate (> 10000), multi-block packing, and a private bitmap object per
+ * call.  BIG[k] is shared and read-only; per-input variation comes from the
+ * offset `in`. */
+#define NBIG 12000
+static uint64_t BIG[4][NBIG + 8];
+static void big_init(void) {
+    for (size_t i = 0; i < NBIG + 8; i++) {
+        BIG[0][i] = i * 3;                                   /* sorted, unique, < 65536 for i < 21845: BITMAP */
+        BIG[1][i] = 1000 + (i % 13);                         /* repetitive: DICT */
+        BIG[2][i] = 1000000 + i * 7;                         /* sorted, large: DELTA */
+        BIG[3][i] = (i * 2654435761ULL) % 100000 + (i % 40 == 39 ? 1ULL << 40 : 0); /* outliers: PFOR / FOR */
+    }
+}
+static size_t c_adaptive_big(int in, uint8_t *o, size_t cap) {
+    (void)cap;
+    static const size_t lens[NIN] = {5000, 9000, 4097, 12000, 6000, 4500};
+    size_t n = lens[in % NIN];
+    const uint64_t *src = BIG[in % 4] + (in % 8);
+    uint8_t *buf = malloc(varintAdaptiveMaxSize(n));
+    uint64_t *back = malloc(n * 8);
+    size_t w = varintAdaptiveEncode(buf, src, n, NULL);
+    size_t r = w ? varintAdaptiveDecode(buf, back, n, NULL) : 0;
+    uint64_t h = 1469598103934665603ULL;
+    for (size_t i = 0; i < w; i++) h = (h ^ buf[i]) * 1099511628211ULL;
+    for (size_t i = 0; i < r; i++) h = (h ^ back[i]) * 1099511628211ULL;
+    memcpy(o, &w, 8);
+    memcpy(o + 8, &r, 8);
+    memcpy(o + 16, &h, 8);
+    free(buf);
+    free(back);
+    return 24;
+}
+static size_t c_bitmap_obj(int in, uint8_t *o, size_t cap) {
+    (void)cap;
+    /* a private set per call: array -> dense -> array again, set algebra, serialisation */
+    varintBitmap *a = varintBitmapCreate(), *b = varintBitmapCreate();
+    for (uint32_t i = 0; i < 5000; i++) varintBitmapAdd(a, (uint16_t)(i * 3 + (uint32_t)in));
+    varintBitmapAddRange(b, (uint16_t)(100 + in), (uint16_t)(9000 + in));
+    varintBitmap *u = varintBitmapOr(a, b), *x = varintBitmapXor(a, b), *c = varintBitmapClone(a);
+    for (uint32_t i = 0; i < 2000; i++) varintBitmapRemove(c, (uint16_t)(i * 3 + (uint32_t)in));
+    static __thread uint8_t enc[20000];
+    size_t w = varintBitmapEncode(u, enc);
+    varintBitmap *d = varintBitmapDecode(enc, w);
+    uint32_t cards[5] = {varintBitmapCardinality(u), varintBitmapCardinality(x), varintBitmapCardinality(c),
+                         d ? varintBitmapCardinality(d) : 0xFFFFFFFFu, (uint32_t)w};
+    uint64_t h = 1469598103934665603ULL;
+    for (size_t i = 0; i < w; i++) h = (h ^ enc[i]) * 1099511628211ULL;
+    memcpy(o, cards, sizeof(cards));
+    memcpy(o + sizeof(cards), &h, 8);
+    varintBitmapFree(a); varintBitmapFree(b); varintBitmapFree(u); varintBitmapFree(x); varintBitmapFree(c);
+    if (d) varintBitmapFree(d);
+    return sizeof(cards) + 8;
+}
 /* Packed arrays and bitstreams "on disjoint storage": each thread owns exactly
  * the slots of its own array, and the arrays of all threads lie back to back
  * in one slab (disjoint, not distant).  200 12-bit elements are exactly 75
@@ -175,7 +231,7 @@ static const struct { const char *name; callfn fn; } CALLS[] = {
     {"tagged", c_tagged}, {"external", c_ext}, {"chained", c_chained}, {"delta", c_delta}, {"for", c_for},
     {"pfor", c_pfor}, {"group", c_group}, {"dict", c_dict}, {"rle", c_rle}, {"elias", c_elias},
     {"bp128", c_bp}, {"float", c_float}, {"adaptive", c_adaptive}, {"packed", c_packed},
-    {"bitstream", c_bitstream}};
+    {"bitstream", c_bitstream}, {"adaptive_big", c_adaptive_big}, {"bitmap_obj", c_bitmap_obj}};
 #define NCALLS (sizeof(CALLS) / sizeof(CALLS[0]))
 
 static pthread_barrier_t bar;
@@ -264,6 +320,7 @@ int main(int argc, char **argv) {
                                 : rng_anywidth();
         }
     }
+    big_init();
     for (int i = 0; i < N; i++) DIN[i] = 20.0 + (double)(rng_u64() % 1000) / 37.0;
     pthread_barrier_init(&bar, NULL, (unsigned)nthreads);
     pthread_t th[64];
